@@ -591,6 +591,16 @@ def _run_jsondata(ctx):
         enc, data = r
         ctx.chk("text-preserved", enc == text, f"json={enc!r} given={text!r}")                                  # 2
         ctx.chk("roundtrip-equal/field-differs", _json_same(data, obj), f"data={data!r} expected={obj!r}")      # 1
+    # what .data hands out is the caller's own: changing it in place must not change the value it came from
+    if isinstance(data, (dict, list)):
+        if isinstance(data, dict):
+            data["__changed_by_the_caller__"] = 1
+        else:
+            data.append("__changed_by_the_caller__")
+        ok, again = ctx.call("decode", lambda: (x.data, x.json))
+        if ok:
+            ctx.chk("data/depends-on-object-handed-out-earlier", _json_same(again[0], obj) and again[1] == enc,
+                    f"after the caller changed the object returned by .data: data={again[0]!r} json={again[1]!r}")
     if isinstance(enc, str):
         ok, x2 = ctx.call("decode", lambda: cls(enc))          # decode from its own encoding
         if ok:
